@@ -124,3 +124,43 @@ func ZZ_C05_Rejected() {
 	}
 	vfAssert("no-notification-for-rejected-set", len(notes) == 0)
 }
+
+// ZZ_C05_ExpiredOnArrival: the insert event of a short-TTL entry is processed at an arbitrary later instant W,
+// with the cached clock last refreshed at an arbitrary instant C <= W. Either the entry is still alive and is
+// tracked (policy, wheel), or it is removed with exactly one EXPIRED notification - also when a Delete follows.
+func ZZ_C05_ExpiredOnArrival() {
+	var notes []zzNote
+	s := zzThreadedStore(10, &notes)
+	origin := vfClockNow()
+	ttl := vfI64("ttl")
+	W := vfI64("drainAt")
+	C := vfI64("cachedNow")
+	vfAssume(ttl >= 1)
+	vfAssume(ttl <= 1<<29)
+	vfAssume(W >= 0)
+	vfAssume(W <= 1<<30)
+	vfAssume(C >= 0)
+	vfAssume(C <= W)
+	s.Set(1, 100, 1, time.Duration(ttl))
+	vfClockSet(origin + C)
+	s.timerwheel.clock.RefreshNowCache()
+	vfClockSet(origin + W)
+	s.Wait() // the NEW event is processed now
+	vfReach("drained")
+	_, resident := s.shards[zzIndex(s, 1)].hashmap[1]
+	n1, l1 := zzCount(notes, 1)
+	if W >= ttl {
+		vfReach("expired-on-arrival")
+		vfAssert("expired-on-arrival-not-resident", !resident)
+		vfAssert("expired-on-arrival-notified-once", n1 == 1 && l1.reason == EXPIRED && l1.val == 100)
+	} else {
+		vfAssert("alive-on-arrival-resident", resident && n1 == 0)
+	}
+	zzAccounted(s, "arrival")
+	zzOnWheel(s, "arrival")
+	s.Delete(1)
+	s.Wait()
+	n2, _ := zzCount(notes, 1)
+	vfAssert("exactly-one-notification-after-delete", n2 == 1)
+	vfAssert("gone-after-delete", s.Len() == 0)
+}
